@@ -1,6 +1,7 @@
 import Driver.Util
 import Driver.Mac
 import Driver.Dev
+import Driver.Nb
 /-! Suite C10: MAC-level histories (see Driver/Mac.lean). The model's run satisfies the C10
 theorems (Props/C10.lean), hence `oracle=ok` on the model side. -/
 namespace Driver.C10
@@ -8,6 +9,7 @@ namespace Driver.C10
 def handle (ws : List String) : String :=
   match ws with
   | "mac" :: rest => s!"{Driver.Mac.run rest} ## oracle=ok|-"
+  | "nbdev" :: rest => s!"{Driver.Nb.run rest} ## oracle=ok|-"
   | "adev" :: rest => s!"{Driver.Dev.run rest} ## oracle=ok|-"
   | _ => "bad-op"
 
